@@ -139,6 +139,9 @@ F = [
   "Exp reported Overflow for arguments a hair above a multiple of 23 (the working precision was derived from |x| rounded to a float64): Exp(3611.0000000000000000001) P=41 Emax=100000 returned Infinity",
   {"C12": [ar("exp", ctx(41, 100000, -100000, "down"), dec("36110000000000000000001", -19)), ar("exp", ctx(41, 100000, -100000, "down"), dec("98900000000000004", -14)),
            ar("exp", ctx(5, 1000, -1000, "half_even"), dec("11500000000000000000001", -20))]}),
+ ("D36", "integerPower reports the right direction when a negative power leaves the range",
+  "Pow with a negative integer exponent reported Underflow when x**|y| underflowed although the result (its reciprocal) overflows: Pow(1.9E-1112, -90) failed with SystemUnderflow|Underflow for a value of 8.2E+100054",
+  {"C12": [ar("pow", ctx(1, 100000, -100000, "down"), dec(19, -1113), dec(9, 1, True))]}),
  ("D35", "Ln uses its power series up to |x-1| = 0.5",
   "Ln was more than one ulp off in round-to-nearest modes just outside its power-series range (cancellation against ln 10 costs more than the two guard digits): Ln(1.10099) at Precision 4 half_up returned 0.09622 for 0.0962098",
   {"C12": [ar("ln", ctx(4, 100000, -100000, "half_up"), dec(110099, -5))]}),
